@@ -35,6 +35,10 @@ type PropConfig struct {
 	// ForbidFieldRead: functions statically reachable from the entry points must not read the field (an
 	// obligation "false" at every such load: the load must be unreachable)
 	ForbidFieldRead []ForbidField `json:"forbid_field_read"`
+	// LoopVariants: every `for` loop (not `range`) of a function under this property needs a termination argument.
+	// The engine has no variant clauses yet: a loop is either listed here with the reason why it ends (reported in
+	// the evidence as an assumption) or carries the obligation `termination:loopN`, which fails.
+	LoopVariants map[string]string `json:"loop_variants"`
 	// Uses: clauses tagged with these properties are assumed in this property's run (imports)
 	Uses []string `json:"uses"`
 }
@@ -43,6 +47,9 @@ type ForbidField struct {
 	Struct    string   `json:"struct"`
 	Field     string   `json:"field"`
 	Reachable []string `json:"reachable_from"`
+	// WriteLock: the field is a sync.RWMutex and what is forbidden on these paths is taking it exclusively
+	// (the paths hold the read lock re-entrantly; a writer queued in between blocks the inner RLock for ever)
+	WriteLock bool `json:"write_lock"`
 }
 
 type GuardedBy struct {
@@ -431,6 +438,7 @@ func cmdCheck(args []string) int {
 				ffs = append(ffs, ff)
 			}
 		}
+		c.loopVariants = cfg.LoopVariants
 		g, err := c.genWith(fn, *prop, forb, oh, gbs, ffs)
 		if err != nil {
 			genErrs = append(genErrs, err.Error())
@@ -735,6 +743,16 @@ func cmdCheck(args []string) int {
 	}
 	for _, k := range sortedKeys(freeUsed) {
 		trusted = append(trusted, "free ensures (assumed at call sites, not checked in the function): "+k)
+	}
+	{
+		var lk []string
+		for k := range cfg.LoopVariants {
+			lk = append(lk, k)
+		}
+		sort.Strings(lk)
+		for _, k := range lk {
+			trusted = append(trusted, "termination of "+k+" is not proved: "+cfg.LoopVariants[k])
+		}
 	}
 	for _, u := range cfg.Uses {
 		trusted = append(trusted, "imported clauses: every requires/ensures/invariant tagged "+u+" is assumed here; those obligations are discharged by the check of "+u+" (which must pass for this result to stand)")
